@@ -610,7 +610,7 @@ theorem BlankPieces.append {a b : List Piece} (ha : BlankPieces a) (hb : BlankPi
   · exact ha q h
   · exact hb q h
 
-theorem BlankPieces.squeeze {l : List Piece} (h : BlankPieces l) : squeeze (render l) = [] := by
+theorem BlankPieces.content {l : List Piece} (h : BlankPieces l) : squeeze (render l) = [] := by
   induction l with
   | nil => rfl
   | cons x l ih =>
@@ -654,5 +654,320 @@ theorem wrote_foldl {v0 v : Vis} {out : List Piece} (h : Wrote v0 v out) : ∀ (
   | cons x post ih =>
     have := ih (h.push x.tag x.text)
     simpa [List.append_assoc] using this
+
+theorem foldl_push_append (v : Vis) (a b : List Piece) :
+    (a ++ b).foldl (fun v q => v.push q.tag q.text) v =
+      b.foldl (fun v q => v.push q.tag q.text) (a.foldl (fun v q => v.push q.tag q.text) v) := by
+  simp [List.foldl_append]
+
+theorem foldl_push_indent (v : Vis) : ∀ (a : List Piece),
+    (a.foldl (fun v q => v.push q.tag q.text) v).blockIndent = v.blockIndent
+  | [] => rfl
+  | x :: a => by simp only [List.foldl_cons]; rw [foldl_push_indent (v.push x.tag x.text) a]; rfl
+
+/-- The head of `process_comment`: no panic when indentation strings exist; only fixed blanks are
+pushed; `on_same_line` only under style edition 2024. -/
+theorem commentHead_spec (env : Env) (hind : IndentOk env.config) (snippet bigPrefix : List Char)
+    (v : Vis) :
+    ∃ v1 ci osl pre, commentHead env snippet bigPrefix v = some (v1, ci, osl) ∧
+      v1 = pre.foldl (fun v q => v.push q.tag q.text) v ∧ BlankPieces pre ∧
+      (osl = true → env.ed2024 = true) := by
+  have hsp : BlankPieces [⟨.blank, [' ']⟩] := BlankPieces.single (allWs_single isWs_space)
+  have hnl : BlankPieces [⟨.blank, ['\n']⟩] := BlankPieces.single (allWs_single isWs_nl)
+  unfold commentHead
+  generalize bigPrefix.reverse.find? (fun c => !isSpaceTab c) = lastChar
+  simp only
+  by_cases hfix : fixIndentOf lastChar = true
+  · rw [if_pos hfix]
+    by_cases hb : lastChar = some '{'
+    · rw [if_pos hb]
+      obtain ⟨ind, h1, h2⟩ := indentStr_ok env hind (v.push .blank ['\n']).blockIndent
+      rw [h1]
+      exact ⟨_, _, false, [⟨.blank, ['\n']⟩, ⟨.blank, ind⟩], rfl, rfl,
+        hnl.append (BlankPieces.single h2), by intro h; cases h⟩
+    · rw [if_neg hb]
+      obtain ⟨ind, h1, h2⟩ := indentStr_ok env hind v.blockIndent
+      rw [h1]
+      exact ⟨_, _, false, [⟨.blank, ind⟩], rfl, rfl, BlankPieces.single h2, by intro h; cases h⟩
+  · rw [if_neg hfix]
+    by_cases h24 : (env.ed2024 && !(snippet.head? == some '\n')) = true
+    · rw [if_pos h24]
+      exact ⟨_, _, true, [⟨.blank, [' ']⟩], rfl, rfl, hsp, by intro _; simp at h24; exact h24.1⟩
+    · rw [if_neg h24]
+      rw [RF.Lemmas.Shape.from_width_ok env.config _ hind]
+      exact ⟨_, _, false, [⟨.blank, [' ']⟩], rfl, rfl, hsp, by intro h; cases h⟩
+
+/-- What the middle of `process_comment` pushes for the comment slice `sub`. -/
+inductive CommentMid (env : Env) (sub : List Char) : List Piece → Prop
+  /-- the comment as `rewrite_comment` returned it (or as written when it failed) -/
+  | whole (sh : Shape) : CommentMid env sub [⟨.comment, rcOr env sub sh⟩]
+  /-- style edition 2024, a one-line comment on the line of the code: as written, without its `\n` -/
+  | raw (t : List Char) : env.ed2024 = true → (t = sub ∨ sub = t ++ ['\n']) →
+      CommentMid env sub [⟨.comment, t⟩]
+  /-- style edition 2024, more lines: the first as written, the others rewritten -/
+  | split (first rest other nl : List Char) (sh : Shape) : env.ed2024 = true →
+      sub = first ++ '\n' :: rest → (other = rest ∨ other = trimStart rest) → AllWs nl →
+      CommentMid env sub [⟨.comment, first⟩, ⟨.blank, nl⟩, ⟨.comment, rcOr env other sh⟩]
+
+theorem utf8Len_eq_zero : ∀ (s : List Char), utf8Len s = 0 → s = []
+  | [], _ => rfl
+  | c :: cs, h => by have := utf8Size_pos c; simp [utf8Len] at h; omega
+
+theorem CommentMid.content {env : Env} {sub : List Char} {mid : List Piece} (hrc : RcContent env.rc)
+    (h : CommentMid env sub mid) : squeeze (render mid) = squeeze sub := by
+  cases h with
+  | whole sh => simp [render, squeeze_rcOr env hrc]
+  | raw t _ ht =>
+    rcases ht with rfl | ht
+    · simp [render]
+    · rw [ht, squeeze_append, squeeze_of_allWs (allWs_single isWs_nl)]; simp [render]
+  | split first rest other nl sh _ hsub hother hnl =>
+    have h1 : squeeze other = squeeze rest := by
+      rcases hother with rfl | rfl
+      · rfl
+      · exact squeeze_trimStart rest
+    have h2 : squeeze ('\n' :: rest) = squeeze rest := by
+      show squeeze (['\n'] ++ rest) = _
+      rw [squeeze_append, squeeze_of_allWs (allWs_single isWs_nl)]; rfl
+    simp only [render, List.flatMap_cons, List.flatMap_nil, List.append_nil, squeeze_append,
+      squeeze_of_allWs hnl, squeeze_rcOr env hrc, h1, hsub, h2, List.nil_append]
+
+theorem CommentMid.noVspace {env : Env} {sub : List Char} {mid : List Piece}
+    (h : CommentMid env sub mid) : ∀ q ∈ mid, q.tag ≠ .vspace := by
+  cases h <;> intro q hq <;> simp at hq
+  · subst hq; simp
+  · subst hq; simp
+  · rcases hq with rfl | rfl | rfl <;> simp
+
+/-- The middle of `process_comment`: no panic when indentation strings exist. -/
+theorem commentBody_spec (env : Env) (hind : IndentOk env.config) (sub : List Char) (v1 : Vis)
+    (ci : Indent) (osl : Bool) (hosl : osl = true → env.ed2024 = true) :
+    ∃ mid, commentBody env sub v1 ci osl = some (mid.foldl (fun v q => v.push q.tag q.text) v1) ∧
+      CommentMid env sub mid := by
+  unfold commentBody
+  simp only
+  cases osl with
+  | false => exact ⟨_, rfl, CommentMid.whole _⟩
+  | true =>
+    have hed := hosl rfl
+    simp only [if_true]
+    cases hf : findChar (· == '\n') sub with
+    | none => exact ⟨[⟨.comment, sub⟩], rfl, CommentMid.raw sub hed (Or.inl rfl)⟩
+    | some off =>
+      obtain ⟨a, c, b, hs, hoff, hc, _⟩ := findChar_split _ sub off hf
+      have hc' : c = '\n' := by simpa using hc
+      subst hc'
+      have htake : takeBytes? off sub = some a :=
+        takeBytes_of_split sub a ('\n' :: b) off hs hoff
+      simp only
+      by_cases hlast : off + 1 = utf8Len sub
+      · rw [if_pos hlast, htake]
+        have hb : b = [] := by
+          apply utf8Len_eq_zero
+          rw [hs, utf8Len_append] at hlast
+          simp [utf8Len, nl_size] at hlast
+          omega
+        exact ⟨[⟨.comment, a⟩], rfl, CommentMid.raw a hed (Or.inr (by rw [hs, hb]))⟩
+      · rw [if_neg hlast, htake]
+        obtain ⟨nl, hnl1, hnl2⟩ := indentNl_ok env hind ci
+        have hdrop : dropBytes? (off + 1) sub = some b := by
+          apply dropBytes_of_split sub (a ++ ['\n']) b
+          · rw [hs]; simp
+          · rw [hoff, utf8Len_append]; simp [utf8Len, nl_size]
+        rw [hnl1, hdrop]
+        generalize Shape.legacy (min env.config.comment_width
+          (env.config.max_width - v1.blockIndent.width)) ci = sh
+        by_cases hsl : startsWith sub ['/', '/'] = true
+        · exact ⟨[⟨.comment, a⟩, ⟨.blank, nl⟩, ⟨.comment, rcOr env (trimStart b) sh⟩], by simp [hsl],
+            CommentMid.split a b (trimStart b) nl sh hed hs (Or.inr rfl) hnl2⟩
+        · exact ⟨[⟨.comment, a⟩, ⟨.blank, nl⟩, ⟨.comment, rcOr env b sh⟩], by simp [hsl],
+            CommentMid.split a b b nl sh hed hs (Or.inl rfl) hnl2⟩
+
+/-- What `process_comment` pushes for the comment slice `sub`: fixed blanks, the comment, fixed blanks. -/
+def CommentOut (env : Env) (sub : List Char) (o : List Piece) : Prop :=
+  ∃ pre mid post, o = pre ++ mid ++ post ∧ BlankPieces pre ∧ CommentMid env sub mid ∧ BlankPieces post
+
+/-- `process_comment` on the comment slice `sub` that follows `done`. -/
+theorem processComment_spec (env : Env) (hind : IndentOk env.config)
+    (snippet done sub tail bigPrefix : List Char) (hs : snippet = done ++ sub ++ tail)
+    (st : RF.Missed.Status) (v0 v : Vis) (out : List Piece) (k : CodeCharKind)
+    (hinv : Inv env v0 k done st v out) :
+    ∃ st' v' o, processComment env snippet bigPrefix sub (utf8Len done) st v = some (st', v') ∧
+      Inv env v0 .normal (done ++ sub) st' v' (out ++ o) ∧ CommentOut env sub o := by
+  obtain ⟨v1, ci, osl, pre, hhead, hv1, hpre, hosl⟩ := commentHead_spec env hind snippet bigPrefix v
+  obtain ⟨mid, hbody, hmid⟩ := commentBody_spec env hind sub v1 ci osl hosl
+  obtain ⟨st', post, htail, hpost, hls, hlw⟩ :=
+    commentTail_spec snippet done sub tail hs st (mid.foldl (fun v q => v.push q.tag q.text) v1)
+  refine ⟨st', post.foldl (fun v q => v.push q.tag q.text)
+    (mid.foldl (fun v q => v.push q.tag q.text) v1), pre ++ mid ++ post, ?_, ?_,
+    ⟨pre, mid, post, rfl, hpre, hmid, hpost⟩⟩
+  · unfold processComment
+    rw [hhead]; simp only
+    rw [hbody]; simp only
+    exact htail
+  · have hw : Wrote v0 (post.foldl (fun v q => v.push q.tag q.text)
+        (mid.foldl (fun v q => v.push q.tag q.text) v1)) (out ++ (pre ++ mid ++ post)) := by
+      have h1 := wrote_foldl hinv.wrote pre
+      rw [← hv1] at h1
+      have h2 := wrote_foldl (wrote_foldl h1 mid) post
+      simpa [List.append_assoc] using h2
+    refine ⟨hw, ⟨done ++ sub, [], by simp, allWs_nil, hls⟩, fun _ => hlw, ?_, ?_⟩
+    · intro hrc
+      obtain ⟨p, q, hd, hq, _⟩ := hinv.split
+      rw [render_append, squeeze_append, hinv.content hrc, render_append, render_append,
+        squeeze_append, squeeze_append, hpre.content, hpost.content, hmid.content hrc, squeeze_append]
+      simp
+    · apply hinv.vs.append
+      intro x hx
+      rcases List.mem_append.mp hx with h | h
+      · rcases List.mem_append.mp h with h | h
+        · exact hpre.noVspace x h
+        · exact hmid.noVspace x h
+      · exact hpost.noVspace x h
+
+/-! ## One turn of the loop, the loop -/
+
+/-- `lf_count + crlf_count` is the number of `\n`, whatever the flag does. -/
+theorem countLfCrlf_sum : ∀ (b : Bool) (s : List Char),
+    (countLfCrlf b s).1 + (countLfCrlf b s).2 = RF.Newline.countNewlines s
+  | _, [] => by simp [countLfCrlf, RF.Newline.countNewlines]
+  | b, c :: cs => by
+    unfold countLfCrlf
+    by_cases h1 : c = '\r'
+    · subst h1
+      simp only [if_true]
+      rw [countLfCrlf_sum true cs]
+      simp [RF.Newline.countNewlines]
+    · simp only [h1, if_false]
+      by_cases h2 : c = '\n'
+      · subst h2
+        simp only [if_true]
+        have ih := countLfCrlf_sum b cs
+        cases b <;> simp [RF.Newline.countNewlines] at ih ⊢ <;> omega
+      · simp only [h2, if_false]
+        rw [countLfCrlf_sum false cs]
+        simp [RF.Newline.countNewlines, h2]
+
+theorem no_nl_of_count_zero {s : List Char} (h : RF.Newline.countNewlines s = 0) :
+    ∀ c ∈ s, c ≠ '\n' := by
+  intro c hc hcn
+  subst hcn
+  have : 0 < s.count '\n' := List.count_pos_iff.mpr hc
+  simp [RF.Newline.countNewlines] at h
+  omega
+
+/-- What one turn of the loop pushes for the slice `sl`. -/
+inductive StepOut (env : Env) (sl : Slice) : List Piece → Prop
+  /-- a comment slice: `process_comment` -/
+  | comment (o : List Piece) : sl.kind = .comment → CommentOut env sl.text o → StepOut env sl o
+  /-- a blank slice with a line break: `push_vertical_spaces` -/
+  | vspace (t : List Char) : sl.kind = .normal → AllWs sl.text → (∃ k, t = List.replicate k '\n') →
+      StepOut env sl [⟨.vspace, t⟩]
+  /-- anything else: `process_missing_code` (nothing is pushed for a blank slice) -/
+  | code (o : List Piece) : sl.kind = .normal →
+      (∀ q ∈ o, q.tag = .code ∨ (q.tag = .blank ∧ AllWs q.text)) → (AllWs sl.text → o = []) →
+      StepOut env sl o
+
+theorem wsiStep_spec (env : Env) (hind : IndentOk env.config) (pre snippet post : List Char)
+    (hbig : env.big = pre ++ snippet ++ post) (sl : Slice) (done tail : List Char)
+    (hs : snippet = done ++ sl.text ++ tail) (hstart : sl.start = utf8Len done)
+    (st : RF.Missed.Status) (v0 v : Vis) (out : List Piece)
+    (hinv : Inv env v0 sl.kind done st v out) :
+    ∃ st' v' o, wsiStep env snippet (utf8Len pre) sl st v = some (st', v') ∧
+      Inv env v0 (flipKind sl.kind) (done ++ sl.text) st' v' (out ++ o) ∧ StepOut env sl o := by
+  unfold wsiStep
+  cases hcnt : countLfCrlf false sl.text with
+  | mk lf crlf =>
+  have hsum : lf + crlf = RF.Newline.countNewlines sl.text := by
+    have := countLfCrlf_sum false sl.text; rw [hcnt] at this; exact this
+  simp only
+  cases hk : sl.kind with
+  | comment =>
+    rw [hk] at hinv
+    have htake : takeBytes? (sl.start + utf8Len pre) env.big = some (pre ++ done) := by
+      apply takeBytes_of_split env.big (pre ++ done) (sl.text ++ tail ++ post)
+      · rw [hbig, hs]; simp [List.append_assoc]
+      · rw [hstart, utf8Len_append]; omega
+    simp only [if_true, htake]
+    rw [hstart]
+    obtain ⟨st', v', o, hrun, hinv', hout⟩ :=
+      processComment_spec env hind snippet done sl.text tail (pre ++ done) hs st v0 v out _ hinv
+    exact ⟨st', v', o, hrun, by simpa [flipKind] using hinv', StepOut.comment o hk hout⟩
+  | normal =>
+    rw [hk] at hinv
+    have hne : ¬ (CodeCharKind.normal = CodeCharKind.comment) := by intro h; cases h
+    simp only [hne, if_false]
+    by_cases hblank : ((trim sl.text).isEmpty && decide (lf + crlf > 0)) = true
+    · rw [if_pos hblank]
+      have hws : AllWs sl.text := by
+        simp at hblank; exact (trim_nil_iff sl.text).mp hblank.1
+      obtain ⟨p, q, hd, hq, hls⟩ := hinv.split
+      refine ⟨_, v.pushVerticalSpaces env (lf + crlf), [⟨.vspace, List.replicate
+        (RF.Newline.pushVerticalSpaces (RF.Newline.trailingNewlines v.buffer) (lf + crlf)
+          env.lower env.upper) '\n'⟩], rfl, ?_, StepOut.vspace _ hk hws ⟨_, rfl⟩⟩
+      have hbuf : v.buffer = v0.buffer ++ render out := hinv.wrote.buffer
+      refine ⟨hinv.wrote.pushVerticalSpaces env _, ?_, by intro h; simp [flipKind] at h, ?_, ?_⟩
+      · -- line_start
+        show ∃ p q, done ++ sl.text = p ++ q ∧ AllWs q ∧ sl.start + afterLastNl sl.text = utf8Len p
+        unfold afterLastNl
+        cases hr : rfindChar (· == '\n') sl.text with
+        | none => exact ⟨done, sl.text, rfl, hws, by simp [hstart]⟩
+        | some i =>
+          obtain ⟨a, c, b, hsplit, hi, hc, _⟩ := rfindChar_split _ sl.text i hr
+          have hc' : c = '\n' := by simpa using hc
+          subst hc'
+          refine ⟨done ++ a ++ ['\n'], b, by rw [hsplit]; simp [List.append_assoc], ?_, ?_⟩
+          · rw [hsplit] at hws
+            exact (allWs_cons.mp (allWs_append.mp hws).2).2
+          · simp only [hstart, hi, utf8Len_append, utf8Len, nl_size]; omega
+      · intro hrc
+        rw [render_append, squeeze_append, hinv.content hrc, squeeze_append, squeeze_of_allWs hws]
+        simp only [render_single, List.append_nil]
+        rw [squeeze_of_allWs (allWs_replicate _ _ isWs_nl)]
+        simp
+      · rw [hbuf]; exact hinv.vs.vspace _
+    · rw [if_neg hblank]
+      rw [hstart]
+      obtain ⟨st', v', o, hrun, hinv', htags, hnone⟩ :=
+        processMissingCode_spec env hind snippet done sl.text tail hs st v0 v out hinv
+      refine ⟨st', v', o, hrun, by simpa [flipKind] using hinv', StepOut.code o hk htags ?_⟩
+      intro hws
+      apply hnone hws
+      apply no_nl_of_count_zero
+      have h1 : (trim sl.text).isEmpty = true := by simp [(trim_nil_iff sl.text).mpr hws]
+      simp [h1] at hblank
+      omega
+
+/-- The per-slice outputs of a run of slices. -/
+inductive LoopOut (env : Env) : List Slice → List Piece → Prop
+  | nil : LoopOut env [] []
+  | cons (sl : Slice) (rest : List Slice) (o os : List Piece) : StepOut env sl o → LoopOut env rest os →
+      LoopOut env (sl :: rest) (o ++ os)
+
+theorem wsiLoop_spec (env : Env) (hind : IndentOk env.config) (pre snippet post : List Char)
+    (hbig : env.big = pre ++ snippet ++ post) (v0 : Vis) : ∀ (items : List Slice) (done : List Char)
+    (k : CodeCharKind) (st : RF.Missed.Status) (v : Vis) (out : List Piece),
+    snippet = done ++ items.flatMap (·.text) → Alternates k items → Contiguous (utf8Len done) items →
+    Inv env v0 k done st v out →
+    ∃ st' v' o k', wsiLoop env snippet (utf8Len pre) items st v = some (st', v') ∧
+      Inv env v0 k' snippet st' v' (out ++ o) ∧ LoopOut env items o
+  | [], done, k, st, v, out, hs, _, _, hinv => by
+    have : snippet = done := by simpa using hs
+    subst this
+    exact ⟨st, v, [], k, rfl, by simpa using hinv, LoopOut.nil⟩
+  | sl :: rest, done, k, st, v, out, hs, halt, hcont, hinv => by
+    obtain ⟨hk, halt'⟩ := halt
+    obtain ⟨hstart, hcont'⟩ := hcont
+    rw [← hk] at hinv
+    obtain ⟨st1, v1, o1, hrun, hinv1, hout1⟩ :=
+      wsiStep_spec env hind pre snippet post hbig sl done (rest.flatMap (·.text))
+        (by rw [hs]; simp [List.append_assoc]) hstart st v0 v out hinv
+    obtain ⟨st', v', o, k', hrun', hinv', hout'⟩ :=
+      wsiLoop_spec env hind pre snippet post hbig v0 rest (done ++ sl.text) (flipKind sl.kind) st1 v1
+        (out ++ o1) (by rw [hs]; simp [List.append_assoc]) (by rw [hk]; exact halt')
+        (by rw [utf8Len_append]; exact hcont') hinv1
+    refine ⟨st', v', o1 ++ o, k', ?_, by simpa [List.append_assoc] using hinv',
+      LoopOut.cons sl rest o1 o hout1 hout'⟩
+    simp only [wsiLoop, hrun]; exact hrun'
 
 end RF.Lemmas.Missed
